@@ -174,7 +174,7 @@ def conditions(tier):
 
 
 META = {
-    "bounds": {"quick": "one test with 3 snapshots: a subject of any of the five operations (>= evaluated twice in a loop) at any of 3 positions, empty or not, between two == snapshots; all 8 values symbolic ints; all subsets of create/fix/trim/update/review (thorough: also report)",
+    "bounds": {"quick": "one test with 3 snapshots: a subject of any of the five operations (>= evaluated twice in a loop) at any of 3 positions, empty or not, between two == snapshots; all 8 values symbolic ints; one call site (with argument or empty) shared by two test items; all subsets of create/fix/trim/update/review (thorough: also report)",
                "thorough": "same"},
     "outside": "snapshots executed outside test functions (module import time), uncopyable values, arguments that change between evaluations, more than 5 snapshots per test",
     "assumptions": ["pytest turns a failing autouse-fixture teardown into an error and a non-zero exit status: validated by the real_exit_status item (real pytest process, no solver), not quantified",
